@@ -363,6 +363,11 @@ class World:
             kw["nac_params"] = {k: np.array(v) for k, v in self.src_nac["arg"].items()}
         if args["calcArg"] != "none":
             kw["calculator"] = args["calcArg"]
+        if args.get("cellArg", "none") == "unitcell":
+            # the crystal structure by argument: load() then does not parse the saved file at all
+            kw["unitcell"] = ph.unitcell.copy()
+            kw["supercell_matrix"] = np.array(ph.supercell_matrix)
+            kw["primitive_matrix"] = np.eye(3) if ph.primitive_matrix is None else np.array(ph.primitive_matrix)
         kw["is_compact_fc"] = bool(args["isCompact"])
         kw["produce_fc"] = bool(args["produceFc"])
         kw["is_nac"] = bool(args["isNac"])
@@ -538,10 +543,9 @@ def project(world, ph2, err, wr=None):
     q.update(symbols=worst["sym"], lattice=worst["lat"], positions=worst["pos"], masses=worst["mass"],
              magmoms=worst["mag"])
     q["smat"] = bool(np.array_equal(np.array(ph.supercell_matrix), np.array(ph2.supercell_matrix)))
-    if ph.primitive_matrix is None or ph2.primitive_matrix is None:
-        q["pmat"] = 0 if (ph.primitive_matrix is None and ph2.primitive_matrix is None) else 9
-    else:
-        q["pmat"] = err_class(ph.primitive_matrix, ph2.primitive_matrix, 15)
+    pm1 = np.eye(3) if ph.primitive_matrix is None else np.array(ph.primitive_matrix)  # None means the unit matrix
+    pm2 = np.eye(3) if ph2.primitive_matrix is None else np.array(ph2.primitive_matrix)
+    q["pmat"] = err_class(pm1, pm2, 15)
     q["maps"] = bool(np.array_equal(ph.primitive.p2s_map, ph2.primitive.p2s_map)
                      and np.array_equal(ph.supercell.s2u_map, ph2.supercell.s2u_map))
     # dataset
